@@ -55,6 +55,11 @@ func run(prop string, only *string) int {
 	r := &R{Report: core.NewReport(prop), perFn: map[string]int{}}
 	r.Set("engine", "enum: exhaustive small-scope enumeration of argument tuples on the real helpers; "+seamNote)
 	f(r)
+	return r.conclude(only)
+}
+
+// conclude writes coverage and evidence; also used to leave early when a helper call does not return.
+func (r *R) conclude(only *string) int {
 	r.Set("evaluations", r.evals)
 	r.Set("transitions", r.evals)
 	r.Set("traces_validated_against_impl", r.evals)
